@@ -253,3 +253,11 @@ func FuncName(f *ssa.Function) string {
 	s = strings.NewReplacer("(", "", ")", "").Replace(s)
 	return s
 }
+
+// controlsDir is the directory of the checker module (for positive-control packages).
+func controlsDir() string {
+	if d := os.Getenv("GOOSECHECK_SRC"); d != "" {
+		return d + "/controls"
+	}
+	return "/verif/checker/controls"
+}
